@@ -109,6 +109,7 @@ type c12outcome struct {
 	h        int
 	toff     time.Duration
 	ambient  int
+	late     bool
 	dirstate int // 0 empty out dir, 1 user Go files of the same package already there, 2 stale output of another invocation there
 	events   []string
 	skipped  string
@@ -192,11 +193,25 @@ func (e *c12env) execC12(inv gencore.Invocation, other *gencore.Invocation, t *t
 	}
 	o.deviated = r.Deviated
 	o.events = r.Events
+	if r.Stragglers {
+		e.res.Counters["runs_with_goroutines_alive_at_return"]++
+	}
+	if r.LateWrite != "" {
+		o.violated, o.class, o.late = true, "writes-after-return", true
+		o.detail = "the generator returned (err=" + clipN(r.Err, 80) + ") while goroutines it had started were still writing: " + r.LateWrite + " changed afterwards"
+		return o
+	}
 	snap := gencore.Snapshot(out)
 	bErr, rErr := b.err != "" || b.panic != "", r.Err != "" || r.Panic != ""
 	switch {
 	case bErr && rErr:
+		// both fail: the error text is not a generated file, but whatever was written before the failure is
 		o.skipped = "both_error"
+		if n, c, d := gencore.DiffSnap(b.files, snap); n != "" && o.dirstate == 0 {
+			o.skipped = ""
+			o.violated, o.class = true, "differs-after-failure"
+			o.detail = fmt.Sprintf("%s %s %s (both runs report an error; the files left behind differ)", n, c, d)
+		}
 	case bErr != rErr:
 		o.violated, o.class = true, "outcome"
 		o.detail = fmt.Sprintf("sorted-order run: err=%q panic=%q; this run: err=%q panic=%q", b.err, b.panic, r.Err, r.Panic)
@@ -218,6 +233,9 @@ func (e *c12env) execC12(inv gencore.Invocation, other *gencore.Invocation, t *t
 }
 
 func (e *c12env) keyOf(o c12outcome) string {
+	if o.late {
+		return lateKey
+	}
 	if len(o.deviated) > 0 {
 		var ks []string
 		for _, id := range o.deviated {
@@ -304,8 +322,10 @@ func runC12(job *Job, res *Result) {
 		}
 		v := e.shrinkC12(run, inv, other, t.Rec, nil)
 		if v == nil {
-			res.HarnessErr = fmt.Sprintf("run %d violated but did not reproduce from its recorded tape", run)
-			return
+			// The same tape does not reproduce the difference: something the simulator does not control
+			// (goroutines, real randomness, ...) decides the output. That is itself non-determinism of the
+			// generator; report it as a flaky finding whose replay repeats the run until it differs.
+			v = e.flakyC12(run, inv, other, t.Rec, o)
 		}
 		if foundKeys[v.Key] {
 			res.Counters["duplicate_violations"]++
@@ -372,7 +392,7 @@ func (e *c12env) shrinkC12(run int, inv gencore.Invocation, other *gencore.Invoc
 	}
 	min := tape.Shrink(rec, func(v []uint32) bool {
 		o := e.replayOutcome(inv, other, v, masked)
-		return o.violated
+		return o.violated && o.late == first.late
 	}, budget)
 	o := e.replayOutcome(inv, other, min, masked)
 	if !o.violated {
@@ -400,9 +420,43 @@ func replayC12(job *Job, res *Result) {
 	rp := job.Replay
 	o := e.replayOutcome(*rp.Invocation, rp.Other, rp.Tape, rp.Masked)
 	res.Runs = 1
+	if rp.FindingKey == lateKey {
+		for i := 0; i < 200 && !(o.violated && o.late); i++ {
+			o = e.replayOutcome(*rp.Invocation, rp.Other, rp.Tape, rp.Masked)
+			res.Runs++
+		}
+		if o.violated && o.late {
+			res.ReplayKey = lateKey
+			res.Notes = append(res.Notes, o.detail)
+		}
+		e.finish()
+		return
+	}
+	if rp.FindingKey == flakyKey {
+		for i := 0; i < 200 && !o.violated; i++ {
+			o = e.replayOutcome(*rp.Invocation, rp.Other, rp.Tape, rp.Masked)
+			res.Runs++
+		}
+		if o.violated {
+			res.ReplayKey = flakyKey
+			res.Notes = append(res.Notes, fmt.Sprintf("differed from the baseline after %d executions of the same tape: %s: %s", res.Runs, o.class, o.detail))
+		}
+		e.finish()
+		return
+	}
 	if o.violated {
 		res.ReplayKey = e.keyOf(o)
 		res.Notes = append(res.Notes, o.class+": "+o.detail)
+	} else {
+		// not reproduced at once: is the finding a matter of chance under one and the same tape?
+		for i := 0; i < 60 && !o.violated; i++ {
+			o = e.replayOutcome(*rp.Invocation, rp.Other, rp.Tape, rp.Masked)
+			res.Runs++
+		}
+		if o.violated {
+			res.ReplayKey = flakyKey
+			res.Notes = append(res.Notes, fmt.Sprintf("differed from the baseline only in execution %d of the same tape (not controlled by the simulator): %s: %s", res.Runs, o.class, o.detail))
+		}
 	}
 	e.finish()
 }
@@ -431,4 +485,32 @@ func zzUserLogging() {
 	_ = strings.TrimPrefix
 }
 `
+}
+
+const flakyKey = "uncontrolled:differs-under-identical-tape"
+const lateKey = "uncontrolled:generator-returns-while-still-writing"
+
+func clipN(s string, n int) string {
+	if len(s) > n {
+		return s[:n] + "…"
+	}
+	return s
+}
+
+// flakyC12 repeats one tape and reports how often the output differs from the sorted baseline.
+func (e *c12env) flakyC12(run int, inv gencore.Invocation, other *gencore.Invocation, rec []uint32, first c12outcome) *Violation {
+	diff := 1 // the original run differed
+	const reps = 40
+	detail := first.detail
+	for i := 0; i < reps; i++ {
+		if o := e.replayOutcome(inv, other, rec, nil); o.violated {
+			diff++
+			detail = o.detail
+		}
+	}
+	rp := Replay{Property: "C12", FindingKey: flakyKey, Seed: e.job.Seed, Run: run, Invocation: &inv, Other: other, Tape: rec,
+		Trace:    []string{fmt.Sprintf("the same tape was executed %d times: %d executions differed from the sorted-order baseline", reps+1, diff)},
+		Observed: "output differs between executions of one tape: " + first.class + ": " + detail,
+		Expected: "byte-identical files for identical inputs and identical simulator choices", SiteTable: e.job.Sites}
+	return &Violation{Key: flakyKey, Replay: rp}
 }
